@@ -66,7 +66,25 @@ def cache_cfgs():
     c.append(dict(withcnt(real, 1), OP=OPS["READ"], WITH_NOCACHE=None))
     return c
 
+def raw_cfgs():
+    c = []
+    for op in (1, 2):
+        for cnt in (1, 2, -3, -5):
+            t = {} if cnt in (2, -3) else {"_tier": "thorough"}
+            c.append(dict({"OP": op, "CNT": cnt, "ALIGN": 0}, **t))                       # pread/pwrite path
+            c.append(dict({"OP": op, "CNT": cnt, "ALIGN": 4}, **t))                       # aligned or bounce, decided by the symbolic skew/offset
+            c.append(dict({"OP": op, "CNT": cnt, "ALIGN": 0, "FORCE_BOUNCE": None}, **t)) # IO_FLAG_FORCE_BOUNCE
+        c.append({"OP": op, "CNT": 1, "ALIGN": 8, "_tier": "thorough"})                   # alignment larger than the block
+    return c
+
 HARNESSES = [
+    dict(name="raw", src="raw.c", funcs=["raw_read_blk"],
+         configs=raw_cfgs(), unwind=8,
+         unwindset=["vf_do_read.0:26", "vf_do_write.0:26", "vf_do_read.1:18", "vf_do_write.1:18"] +
+                   ["main.%d:26" % i for i in range(10)],
+         backends=["default", "kissat"],
+         bound="block size 4, 6 blocks, channel offset 0..7 (unaligned offsets included), caller-buffer skew 0..3, "
+               "alignment 0/4/8, forced bounce; counts 1, 2 blocks and 3, 5 bytes; all data symbolic"),
     dict(name="read_protocol", src="read_protocol.c",
          cut_statics={"lib/ext2fs/unix_io.c": ["find_cached_block", "raw_read_blk", "reuse_cache"]},
          funcs=["unix_read_blk64"],
